@@ -382,11 +382,12 @@ def run(chk):
         ob = ("theorem table_ok : tableOK L table = true := by decide +kernel\n"
               "theorem spec_ok : specOK table = true := by decide +kernel\n"
               "theorem vocab_ok : vocabOK table = true := by decide +kernel\n"
-              "theorem holds : C02_full table := C02_full_of_tableOK table table_ok spec_ok vocab_ok\n#print axioms holds\n")
+              "theorem holds : C02_full table := C02_full_of_tableOK table table_ok spec_ok vocab_ok\n#print axioms holds\n"
+              "theorem unique (e : E) (he : E.ok table L e = true) := C02_parse_unique table table_ok e he\n#print axioms unique\n")
     else:
         ob = "theorem table_not_ok : tableOK L table = false := by decide +kernel\n#print axioms table_not_ok\n"
     gen = ("import Bptk.Props.C02\nimport Bptk.Gen.C02Table\n/-! GENERATED on every run. -/\nnamespace Bptk.C02.Gen\nopen Bptk.Py\n" + ob + "end Bptk.C02.Gen\n")
-    ok, why = chk.prove(gen, extra_sources=["Bptk/Proofs/PyFrag.lean", "Bptk/Core/PyFrag.lean", "Bptk/Gen/C02Table.lean"])
+    ok, why = chk.prove(gen, extra_sources=["Bptk/Proofs/PyFrag.lean", "Bptk/Proofs/PySound.lean", "Bptk/Proofs/PyDet.lean", "Bptk/Core/PyFrag.lean", "Bptk/Gen/C02Table.lean"])
     chk.cov["trusted_base"] = [
         "Lean 4.33 kernel; axioms ⊆ {propext, Classical.choice, Quot.sound}; `decide +kernel` for the per-run table obligations",
         "A1 grammar of the Python fragment (binding powers of CPython's expression grammar) — validated on every run against ast.parse on all generated strings",
